@@ -8,9 +8,9 @@ from eval_agents import RELATED   # noqa
 
 props = [a for a in sys.argv[1:]] or sorted(RELATED)
 for pid in props:
-    for diff in sorted(glob.glob("/tmp/mut/%s_out/m*.diff" % pid)):
+    for diff in sorted(glob.glob(os.environ.get("MUT_DIR", "/tmp/mut") + "/%s_out/m*.diff" % pid)):
         k = os.path.basename(diff)[:-5]
-        sid = "%s-%s" % (pid, k)
+        sid = "%s-%s%s" % (pid, os.environ.get("MUT_TAG", ""), k)
         demo = diff[:-5] + "_demo.py"
         txt = diff[:-5] + ".txt"
         rel = RELATED[pid]
